@@ -11,6 +11,9 @@ theorem wrap64_def (x : Int) : wrap64 x = x % 18446744073709551616 := rfl
 theorem toI32_def (x : Int) : toI32 x = (x + 2147483648) % 4294967296 - 2147483648 := rfl
 theorem toWord_def (x : Int) : toWord x = x % 65536 := rfl
 
+theorem toI64_def (x : Int) : toI64 x = (x + 9223372036854775808) % 18446744073709551616 - 9223372036854775808 := rfl
+theorem toI64_small {x : Int} (h1 : -9223372036854775808 ≤ x) (h2 : x < 9223372036854775808) : toI64 x = x := by
+  rw [toI64_def]; omega
 theorem toI32_small {x : Int} (h1 : -2147483648 ≤ x) (h2 : x < 2147483648) : toI32 x = x := by
   rw [toI32_def]; omega
 
